@@ -192,14 +192,16 @@ def run(chk):
             rex = kind in ('text', 'allnull', 'empty') and rnd.random() < 0.6
             if rex and rnd.random() < 0.6:
                 # "a string no expression matches": chosen after discovery, against the discovered expressions
-                def pert(fields, colname=colname):
+                def pert(fields, colname=colname, vals=vals):
                     import re
                     rexes = (fields.get(colname) or {}).get('rex')
                     if rexes is None:
                         return []
-                    for cand in ('@@@ 12345 !!!', 'ZZZZZZZZZZZZZZZZZZZZZZZZZQ', 'é9é9é9é9é9', '\t\t'):
+                    # first choice: an existing value in the other letter case (expressions are case-sensitive)
+                    swapped = [v.swapcase() for v in vals if v is not None and v.swapcase() != v]
+                    for cand in swapped + ['@@@ 12345 !!!', 'ZZZZZZZZZZZZZZZZZZZZZZZZZQ', 'é9é9é9é9é9', '\t\t']:
                         try:
-                            if not any(re.fullmatch(r.lstrip('^').rstrip('$') if False else r, cand) for r in rexes):
+                            if not any(re.match(r, cand) for r in rexes):
                                 return [('rex', cand)]
                         except re.error:
                             return []
